@@ -354,7 +354,14 @@ func (g *docGen) ruleItems(n int, fancy bool) [][]string {
 			g.note("style:merge-rule")
 			it := []string{"<<: *" + pick(g.r, anchors)}
 			if g.chance(0.6) {
-				it = append(it, g.keyValue(pick(g.r, []string{"expr", "for", "alert", "record"}), pick(g.r, []string{"up", "1m", "Over"}), false)...)
+				extra := g.keyValue(pick(g.r, []string{"expr", "for", "alert", "record"}), pick(g.r, []string{"up", "1m", "Over"}), false)
+				if g.chance(0.5) {
+					it = append(it, extra...)
+				} else {
+					// merge key written last: the merged nodes (earlier lines) follow nodes of later lines
+					it = append(extra, it...)
+					g.note("style:merge-key-last")
+				}
 			}
 			items = append(items, it)
 		case fancy && g.chance(0.15):
@@ -452,11 +459,15 @@ func (g *docGen) groupLines(idx int) []string {
 			g.note("defect:group:rules-missing")
 		case 1:
 			g.note("defect:group:rules-type")
-			parts = append(parts, []string{"rules: " + pick(g.r, []string{"5", "abc", "{a: b}", "true", "{}"})})
+			parts = append(parts, []string{"rules: " + pick(g.r, []string{"5", "abc", "{a: b}", "true", "{}", "{x: [{record: \"nested:a\", expr: up}]}"})})
 		case 2:
 			g.note("defect:group:rules-twice")
 			parts = append(parts, append([]string{"rules:"}, seqLines(g.ruleItems(1, false), 2)...))
-			parts = append(parts, append([]string{"rules:"}, seqLines(g.ruleItems(1, false), 2)...))
+			if g.chance(0.5) {
+				parts = append(parts, append([]string{"rules:"}, seqLines(g.ruleItems(1, false), 2)...))
+			} else {
+				parts = append(parts, []string{"rules: " + pick(g.r, []string{"5", "{a: b}", "~", "{x: [{record: \"nested:b\", expr: up}]}"})})
+			}
 		case 3:
 			g.note("defect:group:rule-item-type")
 			parts = append(parts, []string{"rules:", "  - " + pick(g.r, []string{"abc", "5", "~", "[a, b]", "", "true"})})
